@@ -142,6 +142,23 @@ def arith_harness(clause):
             call("mul_", t.addr, w.re, w.im)
             call("div_", t.addr, w.re, w.im)
             ex.check(ceq(t.get(), zz), "mul-then-div-by-the-same-number-is-not-the-identity")
+        elif clause == "magnitude":
+            # "magnitudes from tiny to large": inverse and quotient are representable for these arguments, so no intermediate
+            # result of the real code may leave the double range (exact-real stand-in for IEEE overflow / underflow to zero)
+            from fractions import Fraction as Fr
+            big, small = Fr(2) ** 2000, Fr(1, 2 ** 2000)
+            n2 = add(mul(w.re, w.re), mul(w.im, w.im))
+            ex.assume(conj([rle(small, n2), rle(n2, big)]))                      # 2^-1000 <= |w| <= 2^1000
+            ex.range_watch = (Fr(2) ** 1024, Fr(1, 2 ** 1075))
+            call("inv", o.addr, w.re, w.im)
+            t = Z(ex, tr, "t", w.re, w.im)
+            call("inv_", t.addr)
+            m2 = add(mul(z.re, z.re), mul(z.im, z.im))
+            ex.assume(conj([rle(Fr(1, 2 ** 1000), m2), rle(m2, Fr(2) ** 1000), rle(Fr(1, 2 ** 1000), n2), rle(n2, Fr(2) ** 1000)]))   # 2^-500 <= |z|, |w| <= 2^500
+            call("div", o.addr, z.re, z.im, w.re, w.im)
+            t = Z(ex, tr, "t", z.re, z.im)
+            call("div_", t.addr, w.re, w.im)
+            ex.range_watch = None
         elif clause == "scalar-division":
             ex.assume(neg(req(s, ZERO)))
             call("div_real", o.addr, z.re, z.im, s)
@@ -533,7 +550,7 @@ def main():
     cfg_none = gen_config(have="none")
     cfg_all = gen_config(have="all")
     const_check(res, cfg_none)
-    arith = [("arith", c) for c in ("ring", "division", "scalar-division", "polar")]
+    arith = [("arith", c) for c in ("ring", "division", "magnitude", "scalar-division", "polar")]
     quads = [("+", "+"), ("-", "+"), ("-", "-"), ("+", "-")]
     fb = [("principal", f, q) for f in ("sqrt", "atan", "atanh", "log") for q in quads]
     fb += [("composite", f, q) for f in ("asinh", "acosh") for q in quads]
@@ -544,7 +561,8 @@ def main():
     srcs = ["complex.c", "math.c", "a.c"]
     opts = dict(validate_every=5, tol=1e-6, exec_attrs={"force_solver": True}, exec_opts={"solver": "nra", "timeout_ms": 120000},
                 time_budget=400 if T == "quick" else 3000, sigmap=lambda n: n)
-    e2.run_e2(res, cfg_none, srcs, arith + fb, builder, group="fallback", **opts)
+    # the magnitude clause costs 150 s on the fallback hypot body (one solver query per arithmetic result): thorough tier only there
+    e2.run_e2(res, cfg_none, srcs, [a for a in arith if T == "thorough" or a[1] != "magnitude"] + fb, builder, group="fallback", **opts)
     if T == "thorough":
         o2 = dict(opts, time_budget=1500, droppable=True)
         e2.run_e2(res, cfg_none, srcs, hard, builder, group="fallback-direct", **o2)
@@ -556,7 +574,8 @@ def main():
                           "fallback bodies of a_complex_{sqrt,asin,acos,atan,asinh,acosh,atanh,log,log2,log10,sec,csc,cot,sech,csch,coth}_ and the *_real variants",
                           "libm-bound wrappers: " + ", ".join(LIBM_C), "constants of a/math.h"])
     res.bounds = {"configurations": "all A_HAVE_* switches off (every fallback body, the configuration the test suite never compiles), all on (plumbing), and complex switches off with the real ones on (structure of the casin/cacos bodies)",
-                  "arguments": "all real z (and scalars) off the axes / cuts, one open quadrant per instance"}
+                  "arguments": "all real z (and scalars) off the axes / cuts, one open quadrant per instance",
+                  "magnitude": "a_complex_inv/inv_ for 2^-1000 <= |z| <= 2^1000, a_complex_div/div_ for 2^-500 <= |x|,|z| <= 2^500: every fadd/fsub/fmul/fdiv result of the executed IR stays below 2^1024 in magnitude and every divisor at or above 2^-1075 (exact-real stand-in for IEEE overflow / underflow to zero; libm-bound configuration in the quick tier, both configurations in the thorough tier); a counterexample is confirmed when the native IEEE run departs from the exact value"}
     res.outside = ["the accuracy clause ('within a small multiple of machine precision scaled by conditioning') for every transcendental evaluation - no installed solver decides it",
                    "exp o log = identity to rounding", "float / long double instantiations", "values ON the branch cuts", "a_complex_pow*, a_complex_exp, trigonometric/hyperbolic forward functions beyond the reciprocal relation",
                    "casin/cacos fallback bodies: decided is WHICH argument each libm call receives (asin/acos: B = |Re z|/A; atan: B/sqrt(1-B^2) or its reciprocal; log: A+sqrt(A^2-1); log1p: that minus 1) and the quadrant fix-up, as algebraic identities; together with the libm contracts this is the principal value in the reals, the evaluation error is outside",
